@@ -10,18 +10,46 @@ type vPage struct {
 	failed bool
 }
 
+// vPageReq: what the scripted server saw of one page request (QUERY or EXECUTE)
+type vPageReq struct {
+	statement  string
+	preparedID []byte
+	params     queryParams
+}
+
 var (
-	vPages    []vPage
-	vPageReqs []*writeQueryFrame
+	vPages       []vPage
+	vPageReqs    []vPageReq
+	vPrepares    int
+	vPreparedID  = []byte{0x50, 0x31}
+	vSkippedMeta int
 )
 
-// vstubPagedExec: the scripted server of a paged query
+// vstubPagedExec: the scripted server of a paged query. PREPARE is answered with an id and the result
+// metadata (one int column "a"); a page request whose skip-metadata flag is set is answered WITHOUT
+// column metadata (flag no_metadata), as a real server does.
 func vstubPagedExec(c *Conn, ctx context.Context, req frameBuilder, tracer Tracer) (*framer, error) {
-	q, ok := req.(*writeQueryFrame)
-	if !ok {
+	cols := []vCol{{ks: "ks", tbl: "t", name: "a", t: vType{id: uint16(TypeInt)}}}
+	var pr vPageReq
+	switch q := req.(type) {
+	case *writePrepareFrame:
+		vPrepares++
+		e := &vEnc{}
+		e.i32(4)
+		e.shortBytes(vPreparedID)
+		e.meta(vMeta{}, true, c.version, nil)
+		if c.version >= 2 {
+			e.meta(vMeta{ncols: 1, cols: cols}, false, c.version, nil)
+		}
+		return vFramerWith(c, opResult, e.b), nil
+	case *writeQueryFrame:
+		pr = vPageReq{statement: q.statement, params: q.params}
+	case *writeExecuteFrame:
+		pr = vPageReq{preparedID: q.preparedID, params: q.params}
+	default:
 		return nil, vErrIO
 	}
-	vPageReqs = append(vPageReqs, q)
+	vPageReqs = append(vPageReqs, pr)
 	i := len(vPageReqs) - 1
 	if i >= len(vPages) {
 		return nil, vErrIO // a request after the last page: answered with an error so it is visible
@@ -32,10 +60,14 @@ func vstubPagedExec(c *Conn, ctx context.Context, req frameBuilder, tracer Trace
 	}
 	e := &vEnc{}
 	e.i32(2)
-	m := vMeta{ncols: 1, cols: []vCol{{ks: "ks", tbl: "t", name: "a", t: vType{id: uint16(TypeInt)}}}}
+	m := vMeta{ncols: 1, cols: cols}
 	if len(p.state) > 0 {
 		m.flags |= 2
 		m.paging = p.state
+	}
+	if pr.params.skipMeta {
+		m.flags |= 4
+		vSkippedMeta++
 	}
 	e.meta(m, false, c.version, nil)
 	e.i32(int32(len(p.rows)))
@@ -43,6 +75,40 @@ func vstubPagedExec(c *Conn, ctx context.Context, req frameBuilder, tracer Trace
 		e.bytes(r, false)
 	}
 	return vFramerWith(c, opResult, e.b), nil
+}
+
+// vPagedQuery: the query under test, unprepared (QUERY frames) or prepared (PREPARE once, EXECUTE per page,
+// metadata skipped unless disabled)
+func vPagedQuery(c *Conn) *Query {
+	q := &Query{stmt: "SELECT a FROM t", cons: Consistency(vU16("cons")), pageSize: int(vU16("page_size")),
+		skipPrepare: true, conn: c, session: c.session, routingInfo: &queryRoutingInfo{}, context: context.Background()}
+	if vBound("prepared") == 1 {
+		q.skipPrepare = false
+		q.disableSkipMetadata = vBool("disable_skip_metadata")
+	}
+	vPages, vPageReqs, vPrepares, vSkippedMeta = nil, nil, 0, 0
+	return q
+}
+
+func vCheckPageRequests(q *Query) {
+	same := true
+	for i, r := range vPageReqs {
+		if i == 0 {
+			same = same && len(r.params.pagingState) == 0
+		} else {
+			same = same && refBytesEq(r.params.pagingState, vPages[i-1].state)
+		}
+		same = same && r.params.consistency == q.cons && r.params.pageSize == q.pageSize
+		if q.skipPrepare {
+			same = same && r.statement == q.stmt && r.preparedID == nil
+		} else {
+			same = same && refBytesEq(r.preparedID, vPreparedID) && r.params.skipMeta == !q.disableSkipMetadata
+		}
+	}
+	vAssert(same, "C15/paging/next-page-requested-with-the-previous-pages-state")
+	if !q.skipPrepare && len(vPageReqs) > 0 {
+		vAssert(vPrepares == 1, "C15/paging/prepared-once-for-all-pages")
+	}
 }
 
 func vh_paging() {
@@ -53,7 +119,7 @@ func vh_paging() {
 		failAt = vChoose("fail_at", np)
 	}
 	var all [][]byte
-	vPages, vPageReqs = nil, nil
+	q := vPagedQuery(c)
 	for i := 0; i < np; i++ {
 		var p vPage
 		nr := vChoose("rows", vBound("max_rows")+1)
@@ -70,9 +136,7 @@ func vh_paging() {
 		p.failed = i == failAt
 		vPages = append(vPages, p)
 	}
-	prefetch := []float64{0, 0.25, 1}[vBound("prefetch")]
-	q := &Query{stmt: "SELECT a FROM t", cons: Consistency(vU16("cons")), pageSize: int(vU16("page_size")), prefetch: prefetch,
-		skipPrepare: true, conn: c, session: c.session, routingInfo: &queryRoutingInfo{}, context: context.Background()}
+	q.prefetch = []float64{0, 0.25, 1}[vBound("prefetch")]
 	iter := c.executeQuery(q.context, q)
 	var got []int32
 	total := len(all)
@@ -149,16 +213,7 @@ func vh_paging() {
 		vAssert(len(vPageReqs) == np, "C15/paging/no-page-requested-after-the-last")
 	}
 	// request i+1 carries exactly page i's paging state and otherwise the same request
-	same := true
-	for i, r := range vPageReqs {
-		if i == 0 {
-			same = same && len(r.params.pagingState) == 0
-		} else {
-			same = same && refBytesEq(r.params.pagingState, vPages[i-1].state)
-		}
-		same = same && r.statement == q.stmt && r.params.consistency == q.cons && r.params.pageSize == q.pageSize
-	}
-	vAssert(same, "C15/paging/next-page-requested-with-the-previous-pages-state")
+	vCheckPageRequests(q)
 	vObserve("rows", len(got))
 }
 
@@ -172,14 +227,20 @@ func vh_manual_paging() {
 	if more {
 		p.state = vBytesN("next", 2)
 	}
-	vPages, vPageReqs = []vPage{p, {}}, nil
-	q := &Query{stmt: "SELECT a FROM t", skipPrepare: true, conn: c, session: c.session, routingInfo: &queryRoutingInfo{}, context: context.Background()}
+	q := vPagedQuery(c)
+	vPages = []vPage{p, {}}
 	q.PageState(st)
 	iter := c.executeQuery(q.context, q)
 	var x, y int32
 	vAssert(iter.Scan(&x) && !iter.Scan(&y), "C15/manual/exactly-one-page-of-rows")
 	vAssert(len(vPageReqs) == 1 && refBytesEq(vPageReqs[0].params.pagingState, st), "C15/manual/one-request-with-the-callers-state")
 	vAssert(refBytesEq(iter.PageState(), p.state) && (len(iter.PageState()) > 0) == more, "C15/manual/next-state-exposed")
+	want := int32(cell[0])<<24 | int32(cell[1])<<16 | int32(cell[2])<<8 | int32(cell[3])
+	vAssert(x == want && len(iter.Columns()) == 1 && iter.Columns()[0].Name == "a", "C15/manual/the-row-and-its-column-as-the-server-sent-them")
+	// C04: the driver's view of this RESULT/Rows frame - paging state from the frame, columns from the frame or
+	// (metadata skipped) from the PREPARE answer, the cell through Scan - equals what the server encoded
+	vAssert(refBytesEq(iter.PageState(), p.state), "C04/rows/paging-state-also-when-metadata-is-skipped")
+	vAssert(x == want && len(iter.Columns()) == 1 && iter.Columns()[0].Name == "a" && iter.Columns()[0].TypeInfo.Type() == TypeInt, "C04/rows/columns-and-cell-also-when-metadata-is-skipped")
 	vAssert(iter.Close() == nil, "C15/manual/no-error")
 	vObserve("x", x)
 }
